@@ -66,7 +66,7 @@ class Ctx:
             open(os.path.join(hdir, 'go.mod'), 'w').write(gm)
             # only this property's registration is linked in, so that a package of another property
             # (possibly being edited) cannot break this build
-            if self.pid != 'SETUP':
+            if True:
                 keep = {'main.go', f'reg_{self.pid.lower()}.go'} | {f'reg_{x.lower()}.go' for x in getattr(self, 'extra_props', [])}
                 rdir = os.path.join(hdir, 'cmd', 'vreplay')
                 for fn in os.listdir(rdir):
@@ -504,6 +504,9 @@ def setup():
     checks that TLC starts).  Checks rebuild against /repo's working tree on every run anyway."""
     ctx = Ctx('SETUP', 'quick', 1)
     try:
+        # link the registrations of the properties claimed in MANIFEST.json (warms the build cache for all of them)
+        man = json.load(open(os.path.join(VERIF, 'MANIFEST.json')))
+        ctx.extra_props = [c['property_id'] for c in man.get('checks', [])]
         ctx.build()
         p = subprocess.run(['java', '-cp', TLA_CP, 'tlc2.TLC', '-h'], stdout=subprocess.PIPE, stderr=subprocess.STDOUT, text=True)
         print('setup ok: harness built, TLC present')
